@@ -15,6 +15,7 @@ import (
 	"math/rand"
 	"os"
 	"runtime"
+	"strings"
 	"time"
 
 	"github.com/paulmach/osm"
@@ -121,7 +122,22 @@ func run(g *graph, reqs []int64, mode, k int) obs {
 		}
 		ctx, cancel := context.WithCancel(context.Background())
 		defer cancel()
-		ord := annotate.NewChildFirstOrdering(ctx, ids, &source{g: g})
+		var ds annotate.RelationHistoryDatasourcer = &source{g: g}
+		if strings.HasPrefix(g.class, "osmds/") {
+			// the library's own datasource (it ignores the context); an empty history is an
+			// empty, non-nil slice in its map
+			h := &osm.HistoryDatasource{Relations: map[osm.RelationID]osm.Relations{}}
+			src := &source{g: g}
+			for _, n := range g.nodes {
+				rs, _ := src.RelationHistory(ctx, osm.RelationID(n.id))
+				if rs == nil {
+					rs = osm.Relations{}
+				}
+				h.Relations[osm.RelationID(n.id)] = rs
+			}
+			ds = h
+		}
+		ord := annotate.NewChildFirstOrdering(ctx, ids, ds)
 		if mode == 0 {
 			for ord.Next() {
 				o.seq = append(o.seq, int64(ord.RelationID()))
@@ -565,6 +581,9 @@ func genGraph(rng *rand.Rand) *graph {
 	for i := 0; i < n; i++ {
 		nd := node{id: int64(ids[i] + 1)}
 		nv := 1 + rng.Intn(3)
+		if rng.Intn(25) == 0 {
+			nv = 0 // an empty history
+		}
 		for v := 0; v < nv; v++ {
 			var ms []member
 			nm := rng.Intn(4)
@@ -582,7 +601,7 @@ func genGraph(rng *rand.Rand) *graph {
 		}
 		g.nodes = append(g.nodes, nd)
 	}
-	if g.class == "cyclic" && n >= 2 {
+	if g.class == "cyclic" && n >= 2 && len(g.nodes[0].versions) > 0 && len(g.nodes[1].versions) > 0 {
 		// make sure there is a cycle through the first two
 		g.nodes[0].versions[0] = append(g.nodes[0].versions[0], member{true, g.nodes[1].id})
 		k := len(g.nodes[1].versions) - 1
@@ -673,6 +692,11 @@ func corpus() []struct {
 		{&graph{class: "corpus/cycle-through-root", nodes: []node{r(1, 3, 2), r(2, 1), r(3)}}, []int64{2, 1}},
 		{&graph{class: "corpus/diamond", nodes: []node{r(1, 2, 3), r(2, 4), r(3, 4), r(4)}}, []int64{1, 4}},
 		{&graph{class: "corpus/missing", nodes: []node{r(1, 9, 2), r(2, 9)}}, []int64{9, 1, 1}},
+		// a history with zero versions (nil error): the datasource did not say NotFound, the id counts
+		// as having a history and is emitted (reading stated in checks.d/C14.json)
+		{&graph{class: "corpus/empty-history", nodes: []node{r(1, 2, 3), {id: 2}, r(3)}}, []int64{1, 2}},
+		{&graph{class: "osmds/empty-history", nodes: []node{r(1, 2, 3), {id: 2}, r(3)}}, []int64{2, 1}},
+		{&graph{class: "osmds/cycle", nodes: []node{r(1, 2), r(2, 3), r(3, 1, 9)}}, []int64{3, 1}},
 		{&graph{class: "corpus/versions", nodes: []node{{id: 1, versions: [][]member{{{true, 2}}, {{true, 3}}, {{false, 2}}}}, r(2), r(3, 2)}}, []int64{1}},
 	}
 }
